@@ -504,7 +504,8 @@ def run_check(check_name, tier, seed=None, nruns=None):
             viol = [r for r in results.values() if r["status"] == "violation"]
             groups = collections.OrderedDict()
             for r in sorted(viol, key=lambda r: r["idx"]):
-                groups.setdefault((r["backend"], r["tag"], r.get("step_op")), []).append(r)
+                kind = (r.get("detail") or {}).get("kind") if isinstance(r.get("detail"), dict) else None
+                groups.setdefault((r["backend"], r["tag"], r.get("step_op"), kind), []).append(r)
             todo = []
             for g, rs in groups.items():
                 todo.extend(rs[:1])
